@@ -299,6 +299,10 @@ extract_args(vector_string &args, const string &expr, size_t &p) const {
       }
       p++;
     }
+    if (p > expr.size()) {
+      // An unterminated string or character literal ran past the end.
+      p = expr.size();
+    }
     {
       // Back up to strip any trailing whitespace.
       size_t r = p;
